@@ -32,6 +32,7 @@ import (
 type Config struct {
 	IntBits       int  // 64 or 32
 	AssumeLenI32  bool // len of any slice/string ≤ 2^31-1
+	ASCIIStrings  bool // assumption: strings handled are ASCII, so len([]rune(s)) == len(s)
 	Ideal         bool // treat +,-,conversions as mathematical integers (for equivalence of layouts, not for safety)
 	UsedSummaries map[string]bool
 }
@@ -69,7 +70,8 @@ type Prover struct {
 }
 
 type phiInv struct {
-	lower ssa.Value // φ ≥ lower
+	lower ssa.Value // φ ≥ lower (when non-nil)
+	upper ssa.Value // φ ≤ upper (when non-nil)
 }
 
 func New(cfg *Config) *Prover {
@@ -79,6 +81,7 @@ func New(cfg *Config) *Prover {
 // Env is the fact set at one program point.
 type Env struct {
 	p     *Prover
+	at    ssa.Instruction
 	fn    *ssa.Function
 	Facts []lin.Ineq
 	memo  map[ssa.Value]lin.Term
@@ -187,8 +190,21 @@ func (e *Env) lenTerm(x ssa.Value) lin.Term {
 	case *ssa.Convert:
 		// string([]byte) / []byte(string) keep the length
 		if _, ok := y.X.Type().Underlying().(*types.Basic); ok {
-			if _, isSl := y.Type().Underlying().(*types.Slice); isSl {
-				return e.lenTerm(y.X)
+			if sl, isSl := y.Type().Underlying().(*types.Slice); isSl {
+				if eb, isB := sl.Elem().Underlying().(*types.Basic); isB && eb.Kind() == types.Byte {
+					return e.lenTerm(y.X)
+				}
+				if e.p.Cfg.ASCIIStrings {
+					e.p.Cfg.use("identifiers are ASCII (grammar rule Identifier): len([]rune(s)) = len(s)")
+					return e.lenTerm(y.X)
+				}
+				// []rune(s): between 0 and len(s) elements
+				name := "len(" + e.valKey(x) + ")"
+				if !e.vars[name] {
+					e.vars[name] = true
+					e.Facts = append(e.Facts, lin.GE(lin.Var(name), lin.Const(0), "len ≥ 0"), lin.LE(lin.Var(name), e.lenTerm(y.X), "len([]rune(s)) ≤ len(s)"))
+				}
+				return lin.Var(name)
 			}
 		}
 		if _, ok := y.X.Type().Underlying().(*types.Slice); ok {
@@ -202,6 +218,30 @@ func (e *Env) lenTerm(x ssa.Value) lin.Term {
 		e.vars[name] = true
 		v := lin.Var(name)
 		e.Facts = append(e.Facts, lin.GE(v, lin.Const(0), "len ≥ 0"))
+		if c, ok := x.(*ssa.Call); ok {
+			if cc, _ := ssax.AsCall(c); cc.FullName() == "strings.Split" || cc.FullName() == "strings.SplitN" {
+				if sep, isC := c.Call.Args[1].(*ssa.Const); isC && sep.Value != nil && constant.StringVal(sep.Value) != "" {
+					e.Facts = append(e.Facts, lin.GE(v, lin.Const(1), "strings.Split(s, sep≠\"\") has at least one part"))
+					e.p.Cfg.use("strings.Split(s, sep≠\"\") has len ≥ 1")
+					// strings.Contains(s, sep) held on a dominating edge ⇒ at least two parts
+					if e.at != nil {
+						for _, ef := range dominatingEdges(e.at.Block()) {
+							if !ef.taken {
+								continue
+							}
+							if cc2, ok := ef.cond.(*ssa.Call); ok {
+								if k, _ := ssax.AsCall(cc2); k.FullName() == "strings.Contains" && ssax.Strip(cc2.Call.Args[0]) == ssax.Strip(c.Call.Args[0]) {
+									if sep2, isC2 := cc2.Call.Args[1].(*ssa.Const); isC2 && sep2.Value != nil && constant.StringVal(sep2.Value) == constant.StringVal(sep.Value) {
+										e.Facts = append(e.Facts, lin.GE(v, lin.Const(2), "strings.Contains(s, sep) ⇒ Split(s, sep) has at least two parts"))
+										e.p.Cfg.use("strings.Contains(s, sep) ⇒ len(strings.Split(s, sep)) ≥ 2")
+									}
+								}
+							}
+						}
+					}
+				}
+			}
+		}
 		if e.p.Cfg.AssumeLenI32 {
 			e.Facts = append(e.Facts, lin.LE(v, lin.Const(1<<31-1), "assumed: buffers are shorter than 2^31 bytes"))
 			e.p.Cfg.use("len(b) ≤ 2^31-1 for every slice/string (no buffer of 2 GiB or more)")
@@ -380,8 +420,23 @@ func (e *Env) term(v ssa.Value) lin.Term {
 	case *ssa.Phi:
 		t := e.fresh(v)
 		for _, inv := range e.p.inv[x] {
-			lo := e.Term(inv.lower)
-			e.Facts = append(e.Facts, lin.GE(t, lo, "loop invariant "+x.Comment+" ≥ "+lo.String()))
+			if inv.lower != nil {
+				lo := e.Term(inv.lower)
+				e.Facts = append(e.Facts, lin.GE(t, lo, "loop invariant "+x.Comment+" ≥ "+lo.String()))
+			}
+			if inv.upper != nil {
+				var hi lin.Term
+				if c, ok := inv.upper.(*ssa.Call); ok {
+					if cc, _ := ssax.AsCall(c); cc.FullName() == "builtin.len" {
+						hi = e.lenTerm(c.Call.Args[0])
+					} else {
+						hi = e.Term(inv.upper)
+					}
+				} else {
+					hi = e.Term(inv.upper)
+				}
+				e.Facts = append(e.Facts, lin.LE(t, hi, "loop invariant "+x.Comment+" ≤ "+hi.String()))
+			}
 		}
 		return t
 	case *ssa.UnOp:
@@ -555,7 +610,7 @@ func (e *Env) addExecutedFacts(in ssa.Instruction) {
 // EnvAt builds the fact set holding immediately before instruction in.
 func (p *Prover) EnvAt(in ssa.Instruction) *Env {
 	fn := in.Parent()
-	e := &Env{p: p, fn: fn, memo: map[ssa.Value]lin.Term{}, vars: map[string]bool{}}
+	e := &Env{p: p, at: in, fn: fn, memo: map[ssa.Value]lin.Term{}, vars: map[string]bool{}}
 	// preconditions
 	for _, pre := range p.Pre[fn] {
 		a, ok1 := e.preTerm(pre.A)
@@ -601,6 +656,7 @@ func (p *Prover) InferInvariants(fn *ssa.Function) {
 	type cand struct {
 		phi   *ssa.Phi
 		lower ssa.Value
+		upper ssa.Value
 	}
 	var cands []cand
 	for _, b := range fn.Blocks {
@@ -623,7 +679,31 @@ func (p *Prover) InferInvariants(fn *ssa.Function) {
 			}
 			for i, ev := range phi.Edges {
 				if !b.Dominates(b.Preds[i]) {
-					cands = append(cands, cand{phi, ev})
+					cands = append(cands, cand{phi, ev, nil})
+				}
+			}
+			// upper bounds: φ ≤ Y for guards v < Y / v ≤ Y on the back-edge value v (or φ itself), Y defined outside the loop
+			for i, ev := range phi.Edges {
+				if !b.Dominates(b.Preds[i]) {
+					continue
+				}
+				for _, v := range []ssa.Value{ev, phi} {
+					refs := v.Referrers()
+					if refs == nil {
+						continue
+					}
+					for _, u := range *refs {
+						bo, ok := u.(*ssa.BinOp)
+						if !ok || (bo.Op != token.LSS && bo.Op != token.LEQ) || bo.X != v {
+							continue
+						}
+						if yi, ok := bo.Y.(ssa.Instruction); ok {
+							if !(yi.Block() != b && yi.Block().Dominates(b)) {
+								continue
+							}
+						}
+						cands = append(cands, cand{phi, nil, bo.Y})
+					}
 				}
 			}
 		}
@@ -636,7 +716,7 @@ func (p *Prover) InferInvariants(fn *ssa.Function) {
 			}
 		}
 		for _, c := range cands {
-			p.inv[c.phi] = append(p.inv[c.phi], phiInv{c.lower})
+			p.inv[c.phi] = append(p.inv[c.phi], phiInv{c.lower, c.upper})
 		}
 	}
 	for iter := 0; iter < 8; iter++ {
@@ -648,13 +728,31 @@ func (p *Prover) InferInvariants(fn *ssa.Function) {
 			ok := true
 			for i, ev := range c.phi.Edges {
 				pb := b.Preds[i]
-				if !b.Dominates(pb) {
-					continue
-				}
 				last := pb.Instrs[len(pb.Instrs)-1]
-				env := p.EnvAt(last)
-				if !env.Prove(lin.GE(env.Term(ev), env.Term(c.lower), "")) {
-					ok = false
+				if c.lower != nil {
+					if !b.Dominates(pb) {
+						continue
+					}
+					env := p.EnvAt(last)
+					if !env.Prove(lin.GE(env.Term(ev), env.Term(c.lower), "")) {
+						ok = false
+					}
+				} else {
+					// upper bound must hold on every incoming edge (entry and back edges)
+					env := p.EnvAt(last)
+					var hi lin.Term
+					if cl, isCall := c.upper.(*ssa.Call); isCall {
+						if cc, _ := ssax.AsCall(cl); cc.FullName() == "builtin.len" {
+							hi = env.LenOf(cl.Call.Args[0])
+						} else {
+							hi = env.Term(c.upper)
+						}
+					} else {
+						hi = env.Term(c.upper)
+					}
+					if !env.Prove(lin.LE(env.Term(ev), hi, "")) {
+						ok = false
+					}
 				}
 			}
 			if ok {
@@ -805,6 +903,14 @@ func exprOf(v ssa.Value) string {
 		return ""
 	}
 	switch x := v.(type) {
+	case *ssa.Convert:
+		return x.Type().String() + "(" + exprOf(x.X) + ")"
+	case *ssa.BinOp:
+		return exprOf(x.X) + x.Op.String() + exprOf(x.Y)
+	case *ssa.Phi:
+		if x.Comment != "" {
+			return x.Comment
+		}
 	case *ssa.Const:
 		return x.Value.String()
 	case *ssa.Parameter:
